@@ -2114,7 +2114,11 @@ impl<W: std::io::Write + std::io::Seek> Encoder<W> {
             // of the stream
             let writer = self.writer.stream();
             writer.seek(std::io::SeekFrom::Start(self.start))?;
-            write_blocks(writer.by_ref(), self.blocks.blocks())
+            write_blocks(writer.by_ref(), self.blocks.blocks())?;
+
+            // anything still buffered by the wrapped writer must reach
+            // its destination before success is reported
+            writer.flush().map_err(Error::Io)
         } else {
             Ok(())
         }
